@@ -41,7 +41,7 @@ def run(ctx, which="C03"):
     cases = RR.gen_cases(ctx.tier, ctx.rng)
     results = H.run_many(_run, cases, jobs=14, timeout=900)
     agg = {}
-    nbad = 0
+    nprop = nmodel = 0
     for case, (tag, res) in zip(cases, results):
         ctx.dist(f"{case['kind']}:E{case['n_intf']}:W{case['workers']}")
         if tag != "ok":
@@ -50,17 +50,18 @@ def run(ctx, which="C03"):
         for k, v in res["stats"].items():
             agg[k] = max(agg.get(k, 0), v) if k == "max_inflight" else agg.get(k, 0) + v
         ctx.count(("case", repr(case)), nontrivial=res["stats"]["treats"] > 0, n=res["stats"]["ops"])
-        if res["model"] and nbad < 5:
-            nbad += 1
-            # correspondence broke; is the property itself violated on the implementation?
-            found = bool(res[which])
-            ctx.violation(f"model and implementation disagree: {res['model'][0][:300]}",
-                          {"case": case, "model_problems": res["model"][:5], "property_problems": res[which][:5]},
-                          found_input=found)
-        elif res[which] and nbad < 5:
-            nbad += 1
+    # concrete failing histories of the property first, then broken correspondence
+    ok_results = [(c, r) for c, (t, r) in zip(cases, results) if t == "ok"]
+    for case, res in sorted(ok_results, key=lambda cr: len(cr[0].get("schedule") or []) + cr[0]["steps"]):
+        if res[which] and nprop < 4:
+            nprop += 1
             ctx.violation(f"{which} statement fails on the implementation: {res[which][0][:300]}",
-                          {"case": case, "property_problems": res[which][:8]}, found_input=True)
+                          {"case": case, "property_problems": res[which][:8], "model_problems": res["model"][:3]}, found_input=True)
+    for case, res in ok_results:
+        if res["model"] and not res[which] and nmodel < 3:
+            nmodel += 1
+            ctx.violation(f"model and implementation disagree: {res['model'][0][:300]}",
+                          {"case": case, "model_problems": res["model"][:5]}, found_input=False)
     ctx.cov["rule"] = ("one evaluation = one recorded scheduler operation (prep_md_items or treat_output) of the real program, "
                        "accepted and reproduced by the extracted model and judged by the property oracle; a case is non-trivial when at least one job completed")
     ctx.cov["correspondence"] = {"cases": len(cases), **agg}
